@@ -76,7 +76,7 @@ func c05IOAux(c *mon.Ctx) {
 		}
 	}
 	nDir := directedCount(c)
-	tail := len(sanSeeds)*2 + genPoolSize() + dnTextSize(c)/c.Pick(1, 8) + extShapeSize(c) // SAN-sibling, generated-pool, DN-text and extension-shape families: complete (thorough: 1 in 8 of the DN-text product)
+	tail := directedSmallTail(c) // SAN-sibling, generated-pool, extension-shape and CRL-shape families: complete; positional and DN-text: 1 in 17
 	for k := 0; k < nDir; k++ {
 		if k%17 != 0 && k < nDir-tail {
 			continue
